@@ -50,6 +50,9 @@ Proof. intros c. exists (S c). reflexivity. Qed.
 Lemma NF_mut_swallow f g d : NF (mut_swallow f g) d tt (f d).
 Proof. intros c. exists (S c). reflexivity. Qed.
 
+Lemma NF_rd d : NF rd d true d.
+Proof. intros c. exists (S c). reflexivity. Qed.
+
 Lemma NFerr_fail {A} d : NFerr (@fail A) d d.
 Proof. intros c. exists c. reflexivity. Qed.
 
@@ -144,7 +147,7 @@ Qed.
 (* load: under the running release the disk is read as is; otherwise it is reset to the fresh disk *)
 Lemma NF_create_new r d : NF (create_newM r) d tt (fresh_disk r).
 Proof.
-  unfold create_newM.
+  unfold create_newM. eapply NF_bind; [apply NF_rd|].
   eapply NF_bind.
   { eapply NF_attempt. eapply NF_bind; [apply NF_write_pj|]. apply NF_mut. }
   cbn iota. eapply NF_ignore.
@@ -156,11 +159,11 @@ Qed.
 Lemma NF_load c d :
   NF (loadM c) d (load_s c (norm c d), load_p (norm c d)) (norm c d).
 Proof.
-  unfold loadM, norm. eapply NF_bind; [apply NF_get|].
+  unfold loadM, norm. eapply NF_bind; [apply NF_rd|]. eapply NF_bind; [apply NF_get|]. cbn iota.
   destruct (sj d) as [| |s] eqn:E.
   - eapply NF_bind; [apply NF_create_new|]. apply NF_ret.
   - eapply NF_bind; [apply NF_create_new|]. apply NF_ret.
-  - destruct (String.eqb (rel s) (c_rel c)) eqn:Er.
+  - eapply NF_bind; [apply NF_rd|]. cbn iota. destruct (String.eqb (rel s) (c_rel c)) eqn:Er.
     + unfold load_s. rewrite E. apply NF_ret.
     + eapply NF_bind; [apply NF_create_new|]. apply NF_ret.
 Qed.
